@@ -4,14 +4,19 @@ import pickle
 import warnings
 import numpy as np
 from props.common import load_impl, exc_name, conj_prov, global_state, global_state_diff
+from props import datasets as dsm
 
 RULE = ("random fit/score call histories (4-10 calls quick, up to 20 thorough) over 1-3 importance objects (methods neighbor K=1, neighbor K=2/ADD path, bruteforce, "
-        "montecarlo; the neighbor objects with or without a feature pipeline - StandardScaler, the supervised SelectKBest(k=1), or both, own or shared between the objects - and then "
-        "with a distance callable that computes the matrix from the extracted features it is handed) sharing datasets, provenance objects and one utility (accuracy, "
+        "montecarlo; the neighbor AND bruteforce objects with or without a feature pipeline - StandardScaler, centring only (StandardScaler(with_std=False)), the supervised "
+        "SelectKBest(k=1), or both, own or shared between the objects; a neighbor object with a pipeline gets "
+        "a distance callable that computes the matrix from the extracted features it is handed) sharing datasets, provenance objects (none, conjunctions, unit id arrays, and "
+        "explicit 3-candidate map/fork provenances Provenance(units, candidates=3, data=[[unit, candidate], ...]) in which a unit owns rows under two candidate values, so "
+        "that the full coalition of the default world does NOT select every training row) and one utility (accuracy, "
         "equalized-odds difference, or ROC-AUC with neighbor-only objects; its model object is watched); the histories contain steps in which the CALLER edits a dataset's "
         "training arrays in place (a row of X 'repaired', a label flipped, the label array replaced by a new object) between a score and the next fit, followed by re-fits that "
         "pass the same array OBJECT with changed contents / changed labels (the data-repair loop; part of the histories open with fit, score, in-place repair, fit with the same "
-        "objects, score); byte snapshots of every caller-owned object - feature "
+        "objects, score; when a bruteforce object with a pipeline and a multi-candidate provenance are both present, most histories open with that object fitted on it and scored "
+        "three times - the same call twice, then a random validation set); byte snapshots of every caller-owned object - feature "
         "arrays, label arrays / Series (values and index), Provenance objects (data and Units lists) and provenance given as integer id arrays (1-D and (unit, candidate) pairs), the distance matrix returned by a recording distance callable, the "
         "utility's model get_params() and fitted attributes - are taken before the history (refreshed after a caller's own edit) and compared after EVERY call; every score is compared with the score of a "
         "fresh object (fresh utility, fresh pipeline) fitted on the same data (no leakage from earlier fits/scores) and repeated neighbor/bruteforce scores must be identical; np.geterr(), np.geterrcall(), "
@@ -53,6 +58,13 @@ def run(ctx):
         datasets = []
         for d in range(rng.randint(2, 3)):
             n = rng.randint(3, 4 if q else 5)
+            prov_kind = rng.choice(["none", "conj", "series", "ids1d", "pairs2d", "multicand", "multicand"])
+            mc = None
+            if prov_kind == "multicand":
+                # explicit map/fork provenance over 3 candidate values: some unit owns alternative versions of its record under two candidate values, so the
+                # FULL coalition of the (default) world - every unit at candidate 1 - does not select every training row
+                mc = dsm.rand_multicand(rng, n_units=rng.randint(2, 3), n_cands=3, explicit_world=False)
+                n = mc["n_rows"]
             X = np.round(nprng.randn(n, 2), 3)
             X[:, 1] = (X[:, 1] > 0).astype(float)           # a binary 'sensitive' column (used by the equalized-odds utility)
             y = np.array([i % 2 for i in range(n)])
@@ -63,9 +75,10 @@ def run(ctx):
             yv = np.array([k % 2 for k in range(m)])
             rng.shuffle(yv)
             n_units = rng.randint(2, 3)
-            prov_kind = rng.choice(["none", "conj", "series", "ids1d", "pairs2d"])
             prov = None
-            if prov_kind == "conj":
+            if mc is not None:
+                prov = dsm.multicand_prov(I, mc)[0]
+            elif prov_kind == "conj":
                 prov = conj_prov(I, [sorted(rng.sample(range(n_units), rng.randint(1, 2))) for _ in range(n)], n_units)[0]
             elif prov_kind in ("ids1d", "pairs2d"):
                 # caller-owned integer arrays of unit identifiers (not the canonical 0..n-1), platform int dtype so that no copy is forced
@@ -76,7 +89,8 @@ def run(ctx):
             ylab = pd.Series(y) if prov_kind == "series" else y
             D = np.abs(X[:, None, 0] - Xv[None, :, 0]) + np.arange(n)[:, None] * 1e-3
             meta = (nprng.rand(n, 1) < 0.6).astype(int)       # per-row training metadata ('trusted' flags) for the metadata-aware model
-            datasets.append(dict(X=X, y=ylab, Xv=Xv, yv=yv, prov=prov, D=D, meta=meta))
+            datasets.append(dict(X=X, y=ylab, Xv=Xv, yv=yv, prov=prov, D=D, meta=meta, prov_kind=prov_kind, partial=(mc is not None)))
+            ctx.dist["provenance=" + prov_kind] += 1
         from sklearn.pipeline import Pipeline
         from sklearn.preprocessing import StandardScaler
         model = KNeighborsClassifier(1) if rng.random() < 0.5 else Pipeline([("sc", StandardScaler()), ("knn", KNeighborsClassifier(1))])
@@ -136,16 +150,20 @@ def run(ctx):
         if meta_aware:
             methods[0] = "bruteforce"          # only the coalition-evaluating methods fit the model (and so hand it metadata)
 
-        # feature pipelines of the neighbor objects: none / unsupervised / supervised (the selected column depends on the labels of the fit); own or shared
+        # feature pipelines of the neighbor and bruteforce objects: none / unsupervised (standardise; centre only) / supervised (the selected column depends on
+        # the labels of the fit); own or shared.  A bruteforce object fits its pipeline on the whole training set (to extract the validation features) and
+        # again on the rows of every coalition, the full coalition last.
         from sklearn.feature_selection import SelectKBest
 
         def make_pipe(kind):
-            steps = {"scale": [("sc", StandardScaler())], "kbest": [("kb", SelectKBest(k=1))], "scale+kbest": [("sc", StandardScaler()), ("kb", SelectKBest(k=1))]}
+            steps = {"scale": [("sc", StandardScaler())], "center": [("ce", StandardScaler(with_std=False))], "kbest": [("kb", SelectKBest(k=1))],
+                     "scale+kbest": [("sc", StandardScaler()), ("kb", SelectKBest(k=1))]}
             return Pipeline(steps[kind]) if kind != "none" else None
-        pipe_kinds = [(rng.choice(["none", "scale", "scale", "kbest", "kbest", "scale+kbest"]) if mth.startswith("neighbor") else "none") for mth in methods]
+        pipe_kinds = [(rng.choice(["none", "scale", "scale", "kbest", "kbest", "scale+kbest"]) if mth.startswith("neighbor") else
+                       rng.choice(["none", "scale", "center", "center", "kbest", "scale+kbest"]) if mth == "bruteforce" else "none") for mth in methods]
         if util_kind == "eqodds":
             # this utility reads its sensitive feature as column 1 of the features it is handed: a pipeline that drops columns is not a valid combination
-            pipe_kinds = [pk if pk in ("none", "scale") else "scale" for pk in pipe_kinds]
+            pipe_kinds = [pk if pk in ("none", "scale", "center") else "scale" for pk in pipe_kinds]
         share_pipe = rng.random() < 0.25
         shared_pipes = {}
 
@@ -209,8 +227,17 @@ def run(ctx):
                     refit_on[oo] = di
         d_labels = [np.asarray(d["y"]).copy() for d in datasets]
         with_pipe = [oo for oo in range(len(objs)) if pipe_kinds[oo] != "none"]
+        bf_pipe = [oo for oo in with_pipe if methods[oo] == "bruteforce"]
+        partial = [dd for dd in range(len(datasets)) if datasets[dd]["partial"]]
+        if bf_pipe and partial and rng.random() < 0.8:
+            # the history opens with a bruteforce object WITH a pipeline fitted on a provenance whose full coalition does not select every row, scored
+            # repeatedly: the same call twice, then (possibly) other validation data; every score is also compared with a fresh object's
+            o1, d1, dv = rng.choice(bf_pipe), rng.choice(partial), rng.randrange(len(datasets))
+            ops += [("fit", o1, d1), ("score", o1, dv), ("score", o1, dv), ("score", o1, rng.randrange(len(datasets)))]
+            plan_fit[o1], planned[o1], scored[o1] = d1, True, True
+            ctx.dist["opens_with_bruteforce_pipeline_partial_provenance_repeats"] += 1
         if not meta_aware and with_pipe and rng.random() < 0.8:
-            # the history opens with the data-repair loop on a neighbor object with a pipeline: fit, score, in-place repair, fit with the same objects, score
+            # the history opens with the data-repair loop on an object with a pipeline: fit, score, in-place repair, fit with the same objects, score
             o0, d0 = with_pipe[0], rng.randrange(len(datasets))
             ops += [("fit", o0, d0), ("score", o0, rng.randrange(len(datasets)))]
             plan_fit[o0], planned[o0] = d0, True
@@ -239,7 +266,7 @@ def run(ctx):
             # the history opens with: fit WITH metadata, refit the same object on other data WITHOUT metadata, score
             ops = [("fit", 0, 0), ("fit", 0, 1), ("score", 0, rng.randrange(len(datasets)))] + ops
             with_meta = {0: True, 1: False, **{k + 3: v for k, v in with_meta.items()}}
-        case = dict(methods=methods, pipelines=pipe_kinds, pipeline_shared=share_pipe, utility=util_kind, ops=ops, meta_aware=meta_aware, fits_given_metadata=sorted(k for k, v in with_meta.items() if v), datasets=[dict(X=d["X"].tolist(), y=np.asarray(d["y"]).tolist(), Xv=d["Xv"].tolist(), yv=d["yv"].tolist(),
+        case = dict(methods=methods, pipelines=pipe_kinds, provenances=[d["prov_kind"] for d in datasets], pipeline_shared=share_pipe, utility=util_kind, ops=ops, meta_aware=meta_aware, fits_given_metadata=sorted(k for k, v in with_meta.items() if v), datasets=[dict(X=d["X"].tolist(), y=np.asarray(d["y"]).tolist(), Xv=d["Xv"].tolist(), yv=d["yv"].tolist(),
                                                            prov=(np.asarray(getattr(d["prov"], "data", d["prov"])).tolist() if d["prov"] is not None else None)) for d in datasets])
         for k, (op, o, di) in enumerate(ops):
             d = datasets[di]
